@@ -427,7 +427,7 @@ def counter_inv(F):
     grew = True
     while grew:
         grew = False
-        for f in F.fns:
+        for f in getattr(F, "all_fns", F.fns):      # helpers inlined at their call sites forward the kind as well
             if f.get("body") is None or f["path"] in reach_add:
                 continue
             takes_kind = any("TypeRef" in (pm.get("ty") or "") or "module_imports::Import" in (pm.get("ty") or "") for pm in f.get("params", []))
@@ -572,12 +572,27 @@ def reorg_inv(F):
     fn = F.one_fn(name="reorganise_generic", self_adt="Module")
     r.analysed.append(fn["path"])
     # locals
+    # the two counters by role, not by name: `num_imported` is the local initialised from the u32 parameter (the insertion
+    # slot for imports), `num_deleted` the other integer local that starts at 0 (how far the unvisited tail has shifted)
     names = {}
+    rename = {}
+    uparams = [pm["pat"] for pm in fn.get("params", []) if pm.get("ty") == "u32" and pm["pat"].get("k") == "Binding"]
+    zero_locals = []
     for st in walk(fn["body"]):
-        if st.get("k") == "Let" and st["pat"].get("k") == "Binding" and st["pat"]["name"] in ("num_imported", "num_deleted"):
-            names[st["pat"]["name"]] = st["pat"]["hid"]
+        if st.get("k") == "Let" and st["pat"].get("k") == "Binding" and isinstance(st.get("init"), dict):
+            i_ = peel(st["init"])
+            if len(uparams) == 1 and i_.get("k") == "Path" and i_.get("res", {}).get("hid") == uparams[0]["hid"]:
+                names["num_imported"] = st["pat"]["hid"]
+                rename[st["pat"]["name"]] = "num_imported"
+            elif i_.get("k") == "Lit" and lit_int(i_.get("lit")) == 0:
+                zero_locals.append(st["pat"])
+    if len(zero_locals) == 1:
+        names["num_deleted"] = zero_locals[0]["hid"]
+        rename[zero_locals[0]["name"]] = "num_deleted"
+    if len(uparams) == 1:
+        rename[uparams[0]["name"]] = "orig_num_imported"
     if set(names) != {"num_imported", "num_deleted"}:
-        raise CheckError("anchor changed: reorganise_generic no longer keeps num_imported/num_deleted (re-read the algorithm)")
+        raise CheckError("anchor changed: reorganise_generic no longer keeps an insertion slot initialised from its u32 parameter and one shift counter starting at 0 (re-read the algorithm)")
     # the for-loop body
     loop_body = None
     for m in walk(fn["body"]):
@@ -596,7 +611,10 @@ def reorg_inv(F):
     # with the branches that test A decided (whether A is tested by an `if`, kept in a bool local, or matched in a tuple),
     # and the counter updates on the path are compared with what the removals/insertions on it require.
     def norm(t):
-        return t.replace(" ", "")
+        for a_, b_ in rename.items():
+            if a_ != b_:
+                t = re.sub(r"\b%s\b" % re.escape(a_), b_, t)
+        return t.replace(" ", "").replace("\n", "")
 
     def is_atom_expr(e):
         e = peel(e)
